@@ -1,4 +1,4 @@
-"""TCP legs of C12, C13, C14 and C19 (thorough tier only; appended to the property's legs by the hook in
+"""TCP legs of C12, C13, C14, C15 and C19 (thorough tier only; appended to the property's legs by the hook in
 vlib/pipeline.py).
 
 What every other leg bypasses is exercised here: the client is initialised the documented way
@@ -21,6 +21,15 @@ is process-global); a child that dies or hangs is a recorded event.
   C14  tcp-rpc        Rpc_Gen schedules for 1, 2 and 3 callers (all 1724), replies
                       reordered / duplicated / dropped / late, coordinator requests reusing a pending id,
                       connection loss by RST; validated by the unchanged Rpc_Trace.tla
+  C15  tcp-inbound    Inbound_Gen1/Gen2 request streams (all 3720) plus 240 seeded random streams of 3..5 requests, each
+                      run as a burst on the one connection: the stream's branch commit / rollback requests and 16..32
+                      background requests (distinct ids, xids, branch ids, statuses) written back to back, all stub
+                      managers released together behind a barrier (some bursts with a heartbeat at the same moment), so
+                      that the replies are encoded and written concurrently on one real session; the replies are what
+                      the stand-in's own reader and table interpreter decode from the socket; the stream's events are
+                      validated by the unchanged Inbound_Trace.tla, background replies are checked by the driver (a
+                      wrong / second / missing / unmatched reply, an undecodable or torn frame is the event "Stray",
+                      which the trace specification rejects); reproduction re-runs the whole leg (repro_full)
   C19  tcp-reconnect  Sessions_GenRcT (loss while idle / request in flight / between phase one and two, once
                       and twice; without bystander) under all five load-balance policies, with a real AT
                       resource (proxy over memsql) and a TCC resource; the connection is dropped with RST and
@@ -54,6 +63,14 @@ TCP_LEGS = {
                 ("Rpc_MC", "Rpc_Gen.cfg", {"NCALLERS": "3"}), _TABLE],
         "trace": ("Rpc_Trace", "Rpc_Trace.cfg"),
         "driver_timeout": 600,
+    }],
+    "C15": [{
+        "name": "tcp-inbound", "driver": "tcp", "args": ["-mode", "inbound"],
+        "gen": [("Inbound_MC", "Inbound_Gen1.cfg"), ("Inbound_MC", "Inbound_Gen2.cfg"), _TABLE],
+        "trace": ("Inbound_Trace", "Inbound_Trace.cfg"),
+        "driver_timeout": 600,
+        # which replies collide is a matter of the schedule: a rejection is reproduced by running the leg again
+        "repro_full": True,
     }],
     "C19": [{
         "name": "tcp-reconnect", "driver": "tcp", "args": ["-mode", "reconnect"],
